@@ -10,8 +10,10 @@ SD="$(cd "$1" && pwd)"; tier="$2"; shift 2
 name="$(basename "$SD")"
 WT="/tmp/seedwt-$name-$$"
 OUT="$ROOT/sim/work/seeded/$name"; rm -rf "$OUT"; mkdir -p "$OUT/evidence" "$OUT/replays"
+# own build root: does not disturb the builds the real checks use
+export MOMSIM_BUILD_ROOT="${SEEDED_BUILD_ROOT:-$ROOT/sim/build-seeded}"
 git -C /repo worktree add -q --detach "$WT" "${SEEDED_BASE:-HEAD}" || exit 2
-trap 'git -C /repo worktree remove --force "$WT" >/dev/null 2>&1; python3 "$ROOT/tools/mkshadow.py"' EXIT
+trap 'git -C /repo worktree remove --force "$WT" >/dev/null 2>&1' EXIT
 if ! git -C "$WT" apply "$SD/patch.diff"; then echo "ERROR $name: patch does not apply"; exit 2; fi
 for prop in "$@"; do
   MOMTROP_REPO="$WT" VERIF_EVIDENCE_DIR="$OUT/evidence" VERIF_REPLAY_DIR="$OUT/replays" \
